@@ -954,6 +954,8 @@ impl Ty for Box<std::path::Path> {
 
 /// Result of encoding into a bounded sink.
 pub struct SinkOut {
+    /// guard regions around the sink's memory are intact
+    pub canary_ok: bool,
     pub res: Result<(), EncErr>,
     /// bytes of the sink's buffer (whole capacity)
     pub buf: Vec<u8>,
@@ -1007,7 +1009,7 @@ macro_rules! cursor_arrays {
                 let mut c = Cursor::new([0xa5u8; $n]);
                 let res = minicbor::encode(&$self.0, &mut c).map_err(|e| enc_class(&e));
                 let pos = c.position();
-                Some(SinkOut { res, buf: c.into_inner().to_vec(), pos })
+                Some(SinkOut { canary_ok: true, res, buf: c.into_inner().to_vec(), pos })
             } )*
             _ => None
         }
@@ -1035,28 +1037,32 @@ where
         decode_as::<T>(bytes, 0)
     }
     fn into_slice(&self, cap: usize) -> SinkOut {
-        let mut buf = vec![0xa5u8; cap];
+        let mut mem = vec![0x5au8; cap + 32];
+        mem[16..16 + cap].fill(0xa5);
         let (res, rem) = {
-            let mut s: &mut [u8] = &mut buf[..];
+            let mut s: &mut [u8] = &mut mem[16..16 + cap];
             let r = minicbor::encode(&self.0, &mut s).map_err(|e| enc_class(&e));
             (r, s.len())
         };
-        SinkOut { res, buf, pos: cap - rem }
+        let canary_ok = mem[..16].iter().chain(&mem[16 + cap..]).all(|b| *b == 0x5a);
+        SinkOut { canary_ok, res, buf: mem[16..16 + cap].to_vec(), pos: cap - rem }
     }
     fn into_cursor_slice(&self, cap: usize) -> SinkOut {
-        let mut buf = vec![0xa5u8; cap];
+        let mut mem = vec![0x5au8; cap + 32];
+        mem[16..16 + cap].fill(0xa5);
         let (res, pos) = {
-            let mut c = Cursor::new(&mut buf[..]);
+            let mut c = Cursor::new(&mut mem[16..16 + cap]);
             let r = minicbor::encode(&self.0, &mut c).map_err(|e| enc_class(&e));
             (r, c.position())
         };
-        SinkOut { res, buf, pos }
+        let canary_ok = mem[..16].iter().chain(&mem[16 + cap..]).all(|b| *b == 0x5a);
+        SinkOut { canary_ok, res, buf: mem[16..16 + cap].to_vec(), pos }
     }
     fn into_cursor_box(&self, cap: usize) -> SinkOut {
         let mut c = Cursor::new(vec![0xa5u8; cap].into_boxed_slice());
         let res = minicbor::encode(&self.0, &mut c).map_err(|e| enc_class(&e));
         let pos = c.position();
-        SinkOut { res, buf: c.into_inner().into_vec(), pos }
+        SinkOut { canary_ok: true, res, buf: c.into_inner().into_vec(), pos }
     }
     fn into_cursor_array(&self, cap: usize) -> Option<SinkOut> {
         cursor_arrays!(self, cap, 0 1 2 3 4 5 6 7 8 9 10 11 12 13 14 15 16 17 18 19 20 21 22 23 24 25 26 27 28 29 30 31 32 33 34 35 36 37 38 39 40 41)
@@ -1066,7 +1072,7 @@ where
         let res = minicbor::encode(&self.0, &mut w).map_err(|e| enc_class(&e));
         let io = w.into_inner();
         let pos = io.buf.len();
-        SinkOut { res, buf: io.buf, pos }
+        SinkOut { canary_ok: true, res, buf: io.buf, pos }
     }
 }
 
@@ -1145,28 +1151,32 @@ where
         (self.dec)(bytes, 0)
     }
     fn into_slice(&self, cap: usize) -> SinkOut {
-        let mut buf = vec![0xa5u8; cap];
+        let mut mem = vec![0x5au8; cap + 32];
+        mem[16..16 + cap].fill(0xa5);
         let (res, rem) = {
-            let mut s: &mut [u8] = &mut buf[..];
+            let mut s: &mut [u8] = &mut mem[16..16 + cap];
             let r = minicbor::encode(self.val, &mut s).map_err(|e| enc_class(&e));
             (r, s.len())
         };
-        SinkOut { res, buf, pos: cap - rem }
+        let canary_ok = mem[..16].iter().chain(&mem[16 + cap..]).all(|b| *b == 0x5a);
+        SinkOut { canary_ok, res, buf: mem[16..16 + cap].to_vec(), pos: cap - rem }
     }
     fn into_cursor_slice(&self, cap: usize) -> SinkOut {
-        let mut buf = vec![0xa5u8; cap];
+        let mut mem = vec![0x5au8; cap + 32];
+        mem[16..16 + cap].fill(0xa5);
         let (res, pos) = {
-            let mut c = Cursor::new(&mut buf[..]);
+            let mut c = Cursor::new(&mut mem[16..16 + cap]);
             let r = minicbor::encode(self.val, &mut c).map_err(|e| enc_class(&e));
             (r, c.position())
         };
-        SinkOut { res, buf, pos }
+        let canary_ok = mem[..16].iter().chain(&mem[16 + cap..]).all(|b| *b == 0x5a);
+        SinkOut { canary_ok, res, buf: mem[16..16 + cap].to_vec(), pos }
     }
     fn into_cursor_box(&self, cap: usize) -> SinkOut {
         let mut c = Cursor::new(vec![0xa5u8; cap].into_boxed_slice());
         let res = minicbor::encode(self.val, &mut c).map_err(|e| enc_class(&e));
         let pos = c.position();
-        SinkOut { res, buf: c.into_inner().into_vec(), pos }
+        SinkOut { canary_ok: true, res, buf: c.into_inner().into_vec(), pos }
     }
     fn into_cursor_array(&self, _cap: usize) -> Option<SinkOut> {
         None
@@ -1176,7 +1186,7 @@ where
         let res = minicbor::encode(self.val, &mut w).map_err(|e| enc_class(&e));
         let io = w.into_inner();
         let pos = io.buf.len();
-        SinkOut { res, buf: io.buf, pos }
+        SinkOut { canary_ok: true, res, buf: io.buf, pos }
     }
 }
 
